@@ -95,12 +95,21 @@ extern MPT_STRUCT(command) *mpt_command_reserve(MPT_STRUCT(array) *arr, size_t m
 		len  = msg->_used / sizeof(*cmd);
 		base = (void *) (msg+1);
 	} else {
-		if ((cmd = mpt_array_append(arr, sizeof(*cmd) * 8, 0))) {
-			static const uintptr_t firstId = 1;
-			cmd->id  = firstId;
-			cmd->cmd = log_reply;
-			cmd->arg = (void *) firstId;
+		static const uintptr_t firstId = 1;
+		/* same buffer type as for mpt_command_set(): reject copy, finalize commands on release */
+		if (!(msg = _mpt_buffer_alloc(sizeof(*cmd) * 8, MPT_ENUM(BufferNoCopy)))) {
+			return 0;
 		}
+		msg->_content_traits = mpt_command_traits();
+		if (!(cmd = mpt_buffer_insert(msg, 0, sizeof(*cmd) * 8))) {
+			msg->_vptr->unref(msg);
+			return 0;
+		}
+		memset(cmd, 0, sizeof(*cmd) * 8);
+		arr->_buf = msg;
+		cmd->id  = firstId;
+		cmd->cmd = log_reply;
+		cmd->arg = (void *) firstId;
 		return cmd;
 	}
 	for (i = 0; i < len; ++i) {
@@ -151,8 +160,8 @@ extern MPT_STRUCT(command) *mpt_command_reserve(MPT_STRUCT(array) *arr, size_t m
 	else {
 		++mid;
 	}
-	/* add command slot */
-	if (!(cmd = mpt_array_append(arr, sizeof(*cmd), 0))) {
+	/* add command slot (typed buffer content) */
+	if (!(cmd = mpt_array_insert(arr, used * sizeof(*cmd), sizeof(*cmd)))) {
 		return 0;
 	}
 	
